@@ -153,9 +153,13 @@ def gen_flag(rng, cols, allow_unknown=False):
         sub.append('nope')
     if rng.random() < 0.5:
         rng.shuffle(sub)        # a selection names columns; the order they are named in means nothing
-    if r < 0.9:
+    if r < 0.85:
         return sub
-    return (lambda d, sub=sub: list(sub))
+    if r < 0.92:
+        return (lambda d, sub=sub: list(sub))
+    # a selection that depends on the frame it is given (as the documented all_fields_except helper does): every field
+    # of that frame but a few
+    return (lambda d, ex=tuple(sub[:2]): [c for c in d if c not in ex])
 
 
 def flag_payload(flag, df):
@@ -519,15 +523,22 @@ def run(ctx):
         ref = pd.DataFrame({'key': list(range(10, 10 + n)), 'val': [rng.randint(100, 999) for _ in range(n)],
                             'txt': ['t%d' % rng.randint(10, 99) for _ in range(n)]})
         act = ref.copy()
-        kind = rng.choice(['digit', 'name', 'text', 'same'])
+        kind = rng.choice(['digit', 'name', 'text', 'same', 'na-spelling'])
         row = rng.randrange(n)
+        if kind == 'na-spelling':
+            # a cell holding an ordinary string that some readers take for a missing value (country code NA, the word
+            # None ...) against an empty cell or another such spelling: different values
+            sp = rng.sample(['NA', 'None', 'null', 'N/A', 'nan', 'n/a', '#N/A', '-'], 2)
+            ref.loc[row, 'txt'] = sp[0]
+            act = ref.copy()
+            act.loc[row, 'txt'] = rng.choice(['', sp[1]])
         if kind == 'digit':
             act.loc[row, 'val'] = (int(ref.loc[row, 'val']) - 100 + 37) % 900 + 100
         elif kind == 'text':
             act.loc[row, 'txt'] = 'u' + str(ref.loc[row, 'txt'])[1:]
         elif kind == 'name':
             act = act.rename(columns={'val': 'vbl'})
-        fmt = rng.choice(['csv', 'csv', 'parquet'])
+        fmt = 'csv' if kind == 'na-spelling' else rng.choice(['csv', 'csv', 'parquet'])
         rp = os.path.join(tmp, 'same-size%d-ref.%s' % (it, fmt))
         ap = os.path.join(tmp, 'same-size%d-act.%s' % (it, fmt))
         for fr, pth in ((ref, rp), (act, ap)):
